@@ -2,6 +2,7 @@
 # usage: fixcommit.sh "<commit message>"  — commits the working-tree change in /repo only if it builds and the baseline tests pass
 set -e
 cd /repo
+if git status --short | grep -q contracts_verif; then echo "contract files are modified: commit them separately first (verif: ...)"; exit 1; fi
 export GOFLAGS=-mod=mod GOPROXY=off GOSUMDB=off GOTOOLCHAIN=local
 go build ./...
 go vet -tags verif ./... >/dev/null 2>&1 || true
